@@ -190,7 +190,35 @@ static void rg_exec(hctx* h, void* arg) {
     fprintf(h->out, " ost=%d,%d omm=%d,%d fr=%d fi=", os1, os2, (int)om1, (int)om2, (int)fr);
     if (fr <= 0) fputc('-', h->out);
     for (int i = 0; i < fr; i++) fprintf(h->out, "%s%d", i ? "," : "", (int)idx[i]);
-    fprintf(h->out, " p_sound=%d p_filter=%d\n", sound, pf);
+    /* the same questions through the path-based readers (stdio, mmap): statuses, bounds (byte for byte - read here, so a bound
+     * that points into a footer buffer released after parsing is a sanitizer report) and verdicts must be those of the
+     * buffer reader above */
+    int modes_agree = 1;
+    { char mp[128]; snprintf(mp, sizeof mp, "/tmp/verif_rgm_%d.parquet", (int)getpid());
+      FILE* mf = fopen(mp, "wb"); if (mf) { fwrite(file, 1, sz, mf); fclose(mf); }
+      for (int mode = 0; mf && mode < 2; mode++) {
+          carquet_reader_options_t ro; carquet_reader_options_init(&ro); ro.use_mmap = mode == 1;
+          carquet_error_t e2 = CARQUET_ERROR_INIT;
+          carquet_reader_t* r2 = carquet_reader_open(mp, &ro, &e2);
+          if (!r2) { modes_agree = 0; continue; }
+          { void* churn[8]; for (int q = 0; q < 8; q++) { churn[q] = malloc(64u << q); if (churn[q]) memset(churn[q], 0xDD, 64u << q); } for (int q = 0; q < 8; q++) free(churn[q]); }
+          for (int i = 0; i < ng; i++) {
+              carquet_column_statistics_t c2; memset(&c2, 0, sizeof c2);
+              int s2 = (int)carquet_reader_column_statistics(r2, i, c->col, &c2);
+              bool m2 = false;
+              int t2 = (int)carquet_reader_row_group_matches(r2, i, c->col, (carquet_compare_op_t)c->op, c->probe.p, c->probe.len, &m2);
+              if (s2 != cst[i] || t2 != st[i] || (t2 == 0 && (int)m2 != mm[i])) modes_agree = 0;
+              if (s2 == 0 && cst[i] == 0) {
+                  if (c2.has_min_max != cs[i].has_min_max || c2.has_null_count != cs[i].has_null_count || c2.num_values != cs[i].num_values) modes_agree = 0;
+                  else if (c2.has_min_max && (c2.min_value_size != cs[i].min_value_size || c2.max_value_size != cs[i].max_value_size ||
+                           (c2.min_value_size > 0 && memcmp(c2.min_value, cs[i].min_value, (size_t)c2.min_value_size) != 0) ||
+                           (c2.max_value_size > 0 && memcmp(c2.max_value, cs[i].max_value, (size_t)c2.max_value_size) != 0))) modes_agree = 0;
+              }
+          }
+          carquet_reader_close(r2);
+      }
+      unlink(mp); }
+    fprintf(h->out, " p_sound=%d p_filter=%d p_stat_modes_agree=%d\n", sound, pf, modes_agree);
     free(idx); free(cst); free(st); free(mm); free(cs);
     carquet_reader_close(rd);
     free(file);
